@@ -487,9 +487,10 @@ class MATD3(MultiAgentRLAlgorithm):
                 if self.discrete_actions:
                     min_action, max_action = 0, 1
                 else:
+                    # Clamp each action dimension with its own bounds
                     min_action, max_action = (
-                        self.min_action[idx][0],
-                        self.max_action[idx][0],
+                        torch.as_tensor(self.min_action[idx], device=actions.device),
+                        torch.as_tensor(self.max_action[idx], device=actions.device),
                     )
 
                 # Add noise to actions for exploration
